@@ -44,12 +44,14 @@ func post(c *ev.Check, outs []*run.Outcome) {
 	c.Require("shapes.rejected.signed-random", 5)
 	c.Require("shapes.rejected.trunc-field", 5)
 	c.Require("migrations_adopted", 1)
+	c.Require("overlap_bans_adopted_mid_round", 10*min)
+	c.Require("overlap_attempts_after_ban", 10*min)
 	if c.Tier == "thorough" {
 		c.SetExtra("exhaustive_subspaces", []map[string]interface{}{{
 			"what":       "every assignment of {refused, reset, short, badsig, success} to n configured servers, n = 1..5 (plus the all-banned configurations)",
 			"size":       nOutcomeCases + nAllBanned,
-			"judged":     c.Counter("cases_outcomes"),
-			"exhaustive": c.Counter("cases_outcomes") == nOutcomeCases+nAllBanned,
+			"judged":     c.Counter("enumerated_outcome_cases"),
+			"exhaustive": c.Counter("enumerated_outcome_cases") == nOutcomeCases+nAllBanned,
 		}})
 	}
 	slow := map[string]float64{}
